@@ -44,8 +44,12 @@ MAP_OPS = ["store", "store", "delete", "pop", "popitem", "setdefault", "update",
 def gen_case(rng, tier, index):
     kind = "set" if index % 2 == 0 else "map"
     form = rng.choice(["none", "empty_list", "empty_tuple", "empty_gen", "empty_dict", "list", "list", "list", "gen",
-                       "dict", "pairs", "pairs"])
+                       "dict", "pairs", "pairs", "range_up", "range_down", "builtin_set", "dict_view"])
+    if kind == "map" and form in ("range_up", "range_down", "builtin_set"):
+        form = "pairs"
     if kind == "set" and form in ("dict", "pairs", "empty_dict"):
+        form = "list"
+    if kind == "set" and form == "dict_view" and rng.random() < 0.5:
         form = "list"
     n0 = rng.choice([1, 2, 3, 5, 8, 12])
     repeats = rng.random() < 0.5
@@ -106,6 +110,16 @@ def build(case):
         elif form.startswith("empty"):
             arg = {"empty_list": [], "empty_tuple": (), "empty_gen": iter(())}[form]
             desc = f"SortedSet({form})"
+        elif form in ("range_up", "range_down"):
+            # a range object (ascending or with a negative step): an iterable of ints like any other
+            a, step = case["init"][0] % 7 - 3, 1 + len(case["init"]) % 3
+            arg = range(a, a + 4 * step, step) if form == "range_up" else range(a + 4 * step, a, -step)
+            model = set(arg)
+            desc = f"SortedSet({arg!r})"
+        elif form in ("builtin_set", "dict_view"):
+            arg = set(keys) if form == "builtin_set" else dict.fromkeys(keys).keys()
+            model = set(keys)
+            desc = f"SortedSet({form} of {keys!r})"
         else:
             arg = list(keys) if form == "list" else (k for k in keys)
             model = set(keys)
@@ -123,6 +137,8 @@ def build(case):
             model = dict(pairs)
             if form == "dict":
                 arg = dict(pairs)
+            elif form == "dict_view":
+                arg = dict(pairs).items()
             elif form == "gen":
                 arg = (p for p in pairs)
             else:
@@ -289,11 +305,12 @@ def run_case(case, res):
                 raise Violation("exception-mismatch", f"del m[{k!r}] -> {g}, expected {want}", {})
             model.pop(k, None)
         elif op == "pop":
-            g = _g(desc, lambda: s.pop(k, "dflt") if aux % 2 else s.pop(k))
+            dflt = None if aux % 4 == 3 else "dflt"         # None is a default like any other
+            g = _g(desc, lambda: s.pop(k, dflt) if aux % 2 else s.pop(k))
             if k in model:
                 want = ("ok", model[k])
             else:
-                want = ("ok", "dflt") if aux % 2 else ("exc", "KeyError")
+                want = ("ok", dflt) if aux % 2 else ("exc", "KeyError")
             if g != want:
                 raise Violation("lookup-value", f"m.pop({k!r}) -> {g}, expected {want}", {})
             model.pop(k, None)
@@ -323,9 +340,10 @@ def run_case(case, res):
                 raise Violation("operation-raised", f"{desc} -> {g}", {})
             model.update(dict(pairs) if aux % 2 else pairs)
         elif op == "get":
-            g = _g(desc, lambda: s.get(k, "dflt"))
-            if g != ("ok", model.get(k, "dflt")):
-                raise Violation("lookup-value", f"m.get({k!r}) -> {g}, expected {model.get(k, 'dflt')!r}", {})
+            dflt = None if aux % 4 == 3 else "dflt"
+            g = _g(desc, lambda: s.get(k, dflt) if aux % 8 != 7 else s.get(k))
+            if g != ("ok", model.get(k, dflt)):
+                raise Violation("lookup-value", f"m.get({k!r}, {dflt!r}) -> {g}, expected {model.get(k, dflt)!r}", {})
         elif op == "lookup":
             g = _g(desc, lambda: s[k])
             want = ("ok", model[k]) if k in model else ("exc", "KeyError")
